@@ -22,6 +22,7 @@ type SpecEnv struct {
 	fr       *Frame
 	bound    map[string]T
 	nested   bool
+	internal bool // clause evaluated at an inner program point (loop invariant, before/after): names denote current values
 	pol      int // +1: formula is a proof goal, -1: formula is assumed, 0: unknown polarity
 	pendingFacts []string
 	facts    []string // well-formedness facts about values loaded from memory while evaluating
@@ -223,7 +224,12 @@ func (se *SpecEnv) lookupIdent(name string) (T, bool) {
 	if t, ok := se.bound[name]; ok {
 		return t, true
 	}
-	if !se.inOld && se.fr != nil && se.st != nil {
+	if se.internal && !se.inOld && se.fr != nil && se.st != nil {
+		if vb, ok := se.st.vars[se.c.frameVarKey(se.fr, name)]; ok && !vb.isAddr && se.fr.paramSet[name] {
+			return vb.val, true
+		}
+	}
+	if se.internal && !se.inOld && se.fr != nil && se.st != nil {
 		// a parameter that was spilled to a cell (captured by a closure or address-taken): outside old()
 		// the name denotes the variable's current value, i.e. the content of the cell
 		if vb, ok := se.st.vars[se.c.frameVarKey(se.fr, name)]; ok && vb.isAddr {
@@ -858,11 +864,28 @@ func (se *SpecEnv) evalLoc(e Expr) []Loc {
 			name := cl.Args[0].(*EStr).V
 			g, ok := se.c.eng.db.Ghosts[name]
 			if !ok {
+				// "pkgname.Type.field" as seen from this package
+				if i := strings.Index(name, "."); i >= 0 {
+					if p := se.c.eng.findPkgByName(se.pkg, name[:i]); p != nil {
+						g, ok = se.c.eng.db.Ghosts[p.Path()+name[i:]]
+					}
+				}
+			}
+			if !ok {
 				se.fail("unknown ghost field %q", name)
+			}
+			// canonical key: the longest key under which this ghost field is registered
+			for k, g2 := range se.c.eng.ghostByType {
+				if g2 == g && len(k) > len(name) {
+					name = k
+				}
 			}
 			os := "Iface"
 			if strings.HasPrefix(name, "string.") {
 				os = "Str"
+			}
+			if ot := se.c.eng.ghostOwnerType[name]; ot != nil {
+				os = se.c.reg.SortOf(ot)
 			}
 			mk := "G:" + name
 			_, so := se.resolveTypeIn(g.Pkg, g.Sort)
